@@ -10,7 +10,7 @@ PROPS = {
                              ["Posmint.Props.C18Coins." + t for t in ("isValid_canon", "amountOf_spec", "safeAdd_spec", "safeAdd_none_iff", "add_canon",
                               "safeSub_spec", "sub_spec", "add_sub_inverse", "sub_add_inverse", "isAllGTE_spec", "isAllGT_spec", "isAnyGT_spec",
                               "isAnyGTE_spec", "denomsSubsetOf_spec", "isEqual_partial", "isEqual_sound", "newCoins_spec", "newCoins_of_valid")] +
-                             ["Posmint.Props.C18DecCoins." + t for t in ("add_spec", "add_none_iff", "add_canon", "safeSub_spec", "sub_spec", "add_sub_inverse",
+                             ["Posmint.Props.C18DecCoins." + t for t in ("add_spec", "add_none_iff", "add_canon", "safeSub_spec", "sub_spec", "add_sub_inverse", "sub_add_inverse",
                               "scale_spec", "scale_total", "mulDec_spec", "mulDecTruncate_spec", "quoDec_spec", "quoDecTruncate_spec", "quoDec_zero_panics",
                               "mulDec_none_iff", "truncateDecimal_spec", "intersect_spec")],
         "t1": [
